@@ -13,6 +13,7 @@ mod e5run;
 mod gen;
 mod gen3;
 mod implrun;
+mod miri;
 mod prog;
 mod refsolve;
 mod refbuiltins;
@@ -35,6 +36,7 @@ fn engine_of(prop: &str) -> &'static str {
         "C01" | "C02" | "C03" | "C04" | "C05" | "C10" | "C11" | "C12" | "C14" | "C15" | "C16" | "C17" => "e2",
         "C18" | "C19" | "C20" | "C21" => "e4",
         "C22" | "C23" => "tm",
+        "C24" => "miri",
         _ => "none",
     }
 }
@@ -70,6 +72,13 @@ fn real_main(args: Vec<String>) -> i32 {
     if pos[0] == "replay" {
         return replay(&pos[1]);
     }
+    if pos[0] == "miri-corpus" {
+        // vh miri-corpus <file> [--tier t]: write the E6 corpus (debugging aid)
+        let c = miri::corpus(&tier);
+        std::fs::write(&pos[1], c.lines.join("\n") + "\n").expect("write corpus");
+        println!("{} cases; with cut {}, with not {}, with timer {}; {:?}", c.lines.len(), c.with_cut, c.with_not, c.with_timer, c.families);
+        return 0;
+    }
     let prop = pos[0].clone();
     if std::env::var("VH_WORKER").is_ok() {
         let eng = std::env::var("VH_ENGINE").unwrap_or_else(|_| engine_of(&prop).to_string());
@@ -93,6 +102,7 @@ fn real_main(args: Vec<String>) -> i32 {
         "e2" => run_e2(&prop, &tier),
         "e4" => run_e4(&prop, &tier),
         "tm" => run_tm(&prop, &tier),
+        "miri" => run_miri(&prop, &tier),
         _ => {
             eprintln!("unknown property {}", prop);
             2
@@ -109,7 +119,11 @@ fn replay(path: &str) -> i32 {
         }
     };
     let v: Value = serde_json::from_str(&s).expect("replay file is JSON");
-    let w = &v["witness"];
+    let mut w = &v["witness"];
+    if w["engine"].is_null() && w["witness"].is_object() {
+        // a crashed / hung / Miri-flagged case: the description wraps the witness
+        w = &w["witness"];
+    }
     println!("replaying {} class {}", v["property"], v["class"]);
     let ok = match w["engine"].as_str() {
         Some("e1") => e1::replay(w),
@@ -122,6 +136,7 @@ fn replay(path: &str) -> i32 {
         },
         Some("e5") => e5run::replay(w),
         Some("c10") => c10::replay(w),
+        Some("miri") => miri::replay(w),
         Some("sessions") => sessions::replay(w),
         Some("e3") => {
             println!("list case: {}", w["text"]);
@@ -325,6 +340,40 @@ fn run_tm(prop: &str, tier: &str) -> i32 {
             "sequentially consistent interleavings only (shuttle); weak-memory effects are C24's (Miri)".into(),
             "scheduling points: every shuttle synchronisation operation plus the five hook events of time_out.rs (cfg suiron_verif)".into(),
             "session histories: a slow query is one whose search cannot finish within seconds (10^9 inferences), so its timeout is deterministic".into(),
+        ],
+    };
+    report::finish(verdict, &out)
+}
+
+/// C24: the corpus under Miri, both aliasing models.
+fn run_miri(prop: &str, tier: &str) -> i32 {
+    let cap = if tier == "thorough" { 3 * 3600 } else { 1200 };
+    let (out, cp) = miri::run(tier, nshards(), Duration::from_secs(cap));
+    let g = |k: &str| *out.stats.get(k).unwrap_or(&0);
+    let samples: Vec<Value> = cp.lines.iter().step_by((cp.lines.len() / 5).max(1)).take(5).map(|l| json!(l.replace('\t', " | "))).collect();
+    let coverage = json!({
+        "evaluations": g("miri.executions"),
+        "distinct_nontrivial": cp.with_cut + cp.with_not + cp.with_timer,
+        "rule": "one evaluation = one call history of the corpus (parse the rules, build the knowledge base, run the query to exhaustion plus re-asks, or through solve / solve_all with the real timer thread, or through load_kb_from_file) executed under Miri; every history runs twice, under Stacked Borrows and under Tree Borrows, with the data-race detector on. The corpus is enumerated from the same bounded program families as E2 (cut at every position of every and/or shape, not, nested and/or, recursion over lists, output, built-ins, non-ground facts) plus histories in which the 1 s timer fires in the middle of a search and further queries follow. Non-trivial = distinct histories that execute a cut, a not, or the timer thread (counted from the corpus)",
+        "samples": samples,
+        "exhaustive": !out.capped,
+        "corpus_cases": cp.lines.len(),
+        "cases_by_family": cp.families,
+        "cases_with_cut": cp.with_cut,
+        "cases_with_not": cp.with_not,
+        "cases_with_timer_thread": cp.with_timer,
+        "clean_under_stacked_borrows": g("miri.stacked.cases_clean"),
+        "clean_under_tree_borrows": g("miri.tree.cases_clean"),
+        "timer_fired_mid_search": g("miri.timer_fired_mid_search"),
+    });
+    let verdict = report::Verdict {
+        property: prop.to_string(),
+        level: "exploration".into(),
+        coverage,
+        assumptions: vec![
+            "Miri (nightly) is the monitor: its Stacked Borrows and Tree Borrows models are experimental; leaks (the solver's parent/child Rc cycles, timer threads alive at exit) are not undefined behaviour and are ignored".into(),
+            "data races: Miri's happens-before detector sees every access that executes, with the real thread_timer crate and real time (isolation disabled); it is insensitive to the interleaving, the interleaving-sensitive outcomes are C22/C23's (E5)".into(),
+            "only histories expressible in the text syntax (not((a, b)) is API-only and is not in the corpus)".into(),
         ],
     };
     report::finish(verdict, &out)
